@@ -264,6 +264,8 @@ def run(ctx):
     if ctx.shard[0] == 0:
         for items in (["\x1b[31mhi", "x"], ["\x1b[31m"], ["a\x1b[2Jb", "c"], ["p", "q\x1b[0m"]):
             run_case(ctx, {"op": "join_markup", "sep": [[", ", {"fg": 32}]], "items": items})
+            run_case(ctx, {"op": "join_markup", "sep": [[" | ", {}]], "items": items})        # nothing formatted anywhere
+            run_case(ctx, {"op": "join_markup", "sep": [["", {}]], "items": items + ["caf\x9b au lait"]})
             ctx.count("joins_of_plain_str_with_escape_sequences")
     small = list(obs.layouts(3, 2)) if not quick else list(obs.layouts(2, 2))
     strs = ["", "x", "xy"]
